@@ -2,10 +2,8 @@
    relocation list (`mapSlots`), of which the fix-up loop, save's pointer->reference pass and
    its reference->pointer pass are instances. -/
 import YaraModel.Lemmas.ArenaBytes
+import YaraModel.Spec.Arena
 namespace YaraModel.Arena
-
-/-- two 8-byte slots do not share a byte -/
-def NoOverlap (r s : Ref) : Prop := r.buf ≠ s.buf ∨ r.off + 8 ≤ s.off ∨ s.off + 8 ≤ r.off
 
 theorem NoOverlap.symm {r s : Ref} (h : NoOverlap r s) : NoOverlap s r := by
   unfold NoOverlap at *; omega
@@ -168,9 +166,6 @@ theorem mapSlots_setSlot_comm (φ : Nat → Nat) {t : List Ref} {r : Ref} (a : A
     rw [mapSlots_cons, mapSlots_cons, getSlot_setSlot_other _ hrs, setSlot_comm _ _ _ hrs,
       ih _ (fun x hx => h x (List.mem_cons_of_mem _ hx))]
 
-/-- the slots of a list are pairwise disjoint and inside the used bytes -/
-def SlotsOk (a : Arena) (rs : List Ref) : Prop := rs.Pairwise NoOverlap ∧ ∀ r ∈ rs, InB a r
-
 theorem SlotsOk.tail {a : Arena} {r : Ref} {t : List Ref} (h : SlotsOk a (r :: t)) : SlotsOk a t :=
   ⟨(List.pairwise_cons.1 h.1).2, fun s hs => h.2 s (List.mem_cons_of_mem _ hs)⟩
 
@@ -198,7 +193,7 @@ theorem getSlot_mapSlots (φ : Nat → Nat) {rs : List Ref} {a : Arena} (h : Slo
     · rw [getSlot_setSlot_other _ (hno r hmem), ih h.tail hmem]
 
 theorem mapSlots_comp (φ ψ : Nat → Nat) {rs : List Ref} {a : Arena} (h : SlotsOk a rs)
-    (hψ : ∀ v, ψ (v % 2 ^ 64) = ψ v) :
+    (hφ : ∀ r ∈ rs, φ (getSlot a r) < 2 ^ 64) :
     mapSlots ψ rs (mapSlots φ rs a) = mapSlots (fun v => ψ (φ v)) rs a := by
   induction rs generalizing a with
   | nil => simp only [mapSlots_nil]
@@ -206,8 +201,10 @@ theorem mapSlots_comp (φ ψ : Nat → Nat) {rs : List Ref} {a : Arena} (h : Slo
     have ⟨hno, hin⟩ := h.head
     simp only [mapSlots_cons]
     rw [mapSlots_setSlot_comm φ a _ hno]
-    rw [getSlot_setSlot_same _ ((InB_mapSlots φ t a r).2 hin), setSlot_setSlot_same, hψ]
-    rw [mapSlots_setSlot_comm ψ _ _ hno, mapSlots_setSlot_comm _ a _ hno, ih h.tail]
+    rw [getSlot_setSlot_same _ ((InB_mapSlots φ t a r).2 hin), setSlot_setSlot_same,
+      Nat.mod_eq_of_lt (hφ r (List.mem_cons_self ..))]
+    rw [mapSlots_setSlot_comm ψ _ _ hno, mapSlots_setSlot_comm _ a _ hno,
+      ih h.tail (fun s hs => hφ s (List.mem_cons_of_mem _ hs))]
 
 theorem mapSlots_congr {φ ψ : Nat → Nat} {rs : List Ref} {a : Arena} (h : SlotsOk a rs)
     (hv : ∀ r ∈ rs, φ (getSlot a r) = ψ (getSlot a r)) : mapSlots φ rs a = mapSlots ψ rs a := by
